@@ -188,7 +188,7 @@ fn huge_grouping_case(ctx: &mut Ctx) {
 }
 
 pub fn suite_group(ctx: &mut Ctx) {
-    if ctx.tier == Tier::Thorough && ctx.take() {
+    if ctx.take() {
         huge_grouping_case(ctx);
     }
     let (max_n, max_changes, nrand) = match ctx.tier {
@@ -305,6 +305,100 @@ fn val_str(v: u32) -> String {
     }
 }
 
+/// Drives an iterator through the adaptor entry points a caller may use instead of plain `next()`
+/// (`nth`, `skip`, `step_by`, `count`, `last`, `fold`, `size_hint`) and compares with the sequence `want`
+/// that plain iteration is supposed to give. `make` builds a fresh iterator; `conv` shows an item.
+pub fn drive_check<I: Iterator, F: Fn() -> I, C: Fn(I::Item) -> String>(make: F, conv: C, want: &[String]) -> Result<(), String> {
+    let total = want.len();
+    // plain next() with size_hint bracketing at every step
+    {
+        let mut it = make();
+        for k in 0..=total {
+            let (lo, hi) = it.size_hint();
+            let rem = total - k;
+            if lo > rem || hi.map_or(false, |h| h < rem) {
+                return Err(format!("size_hint ({}, {:?}) after {} items but {} remain", lo, hi, k, rem));
+            }
+            let x = it.next().map(&conv);
+            if x.as_deref() != want.get(k).map(|s| s.as_str()) {
+                return Err(format!("next() #{} gave {:?} expected {:?}", k, x, want.get(k)));
+            }
+        }
+        if it.next().is_some() {
+            return Err("next() after the end gave an item".to_string());
+        }
+    }
+    let mut ns: Vec<usize> = vec![0, 1, 2, 3];
+    for d in [2usize, 1, 0] {
+        ns.push(total.saturating_sub(d));
+    }
+    ns.push(total + 1);
+    ns.sort();
+    ns.dedup();
+    for c in 0..=total.min(3) {
+        for &n in &ns {
+            for &n2 in &[0usize, 1] {
+                let mut it = make();
+                for _ in 0..c {
+                    it.next();
+                }
+                let x = it.nth(n).map(&conv);
+                let mut pos = c + n;
+                if x.as_deref() != want.get(pos).map(|s| s.as_str()) {
+                    return Err(format!("next() x{} then nth({}) gave {:?} expected {:?}", c, n, x, want.get(pos)));
+                }
+                if pos >= total {
+                    continue;
+                }
+                pos += 1;
+                let y = it.nth(n2).map(&conv);
+                if y.as_deref() != want.get(pos + n2).map(|s| s.as_str()) {
+                    return Err(format!("next() x{}, nth({}), nth({}) gave {:?} expected {:?}", c, n, n2, y, want.get(pos + n2)));
+                }
+                pos = (pos + n2 + 1).min(total);
+                let rest: Vec<String> = it.map(&conv).collect();
+                if rest[..] != want[pos..] {
+                    return Err(format!("next() x{}, nth({}), nth({}) then draining gave {} items expected {}", c, n, n2, rest.len(), total - pos));
+                }
+            }
+        }
+    }
+    for k in 0..=total + 1 {
+        let got: Vec<String> = make().skip(k).map(&conv).collect();
+        if got[..] != want[k.min(total)..] {
+            return Err(format!("skip({}) gave [{}] expected [{}]", k, got.join(","), want[k.min(total)..].join(",")));
+        }
+    }
+    for k in 1..=4usize {
+        for c in 0..=total.min(2) {
+            let mut it = make();
+            for _ in 0..c {
+                it.next();
+            }
+            let got: Vec<String> = it.step_by(k).map(&conv).collect();
+            let exp: Vec<String> = want[c..].iter().step_by(k).cloned().collect();
+            if got != exp {
+                return Err(format!("next() x{} then step_by({}) gave [{}] expected [{}]", c, k, got.join(","), exp.join(",")));
+            }
+        }
+    }
+    if make().count() != total {
+        return Err(format!("count() gave {} expected {}", make().count(), total));
+    }
+    let l = make().last().map(&conv);
+    if l.as_deref() != want.last().map(|s| s.as_str()) {
+        return Err(format!("last() gave {:?} expected {:?}", l, want.last()));
+    }
+    let f: Vec<String> = make().fold(vec![], |mut v, x| {
+        v.push(conv(x));
+        v
+    });
+    if f[..] != want[..] {
+        return Err("fold() visits other items than next()".to_string());
+    }
+    Ok(())
+}
+
 fn check_changes(ctx: &mut Ctx, op: Call, len: usize) {
     let req = format!("changes | {}", op.show());
     let old: Vec<u32> = (0..len as u32).map(|i| OLD_BASE + i).collect();
@@ -383,6 +477,28 @@ fn check_changes(ctx: &mut Ctx, op: Call, len: usize) {
     }
     if sl != wsl {
         ctx.violation("C13", &req, format!("iter_slices gave {} expected {}", sl.join(","), wsl.join(",")));
+    }
+    // the same expansion through the other iterator entry points
+    let shown = |c: similar::Change<u32>| format!("{}.{}.{}.{}", tag_char(c.tag()), idx_str(c.old_index()), idx_str(c.new_index()), val_str(c.value()));
+    match std::panic::catch_unwind(|| drive_check(|| dop.iter_changes(&old[..], &new[..]), shown, &want)) {
+        Ok(Ok(())) => {}
+        Ok(Err(e)) => ctx.violation("C13", &req, format!("iter_changes: {}", e)),
+        Err(_) => ctx.violation("C13", &req, "iter_changes panicked when driven through nth/skip/step_by".to_string()),
+    }
+    let shown_sl = |(t, s): (ChangeTag, &[u32])| {
+        if s.is_empty() {
+            format!("{}.e", tag_char(t))
+        } else {
+            let first = val_str(s[0]);
+            let (side, start) = first.split_at(1);
+            let start: usize = start.parse().unwrap();
+            format!("{}.{}.{}.{}", tag_char(t), side, start, start + s.len())
+        }
+    };
+    match std::panic::catch_unwind(|| drive_check(|| dop.iter_slices(&old[..], &new[..]), shown_sl, &wsl)) {
+        Ok(Ok(())) => {}
+        Ok(Err(e)) => ctx.violation("C13", &req, format!("iter_slices: {}", e)),
+        Err(_) => ctx.violation("C13", &req, "iter_slices panicked when driven through nth/skip/step_by".to_string()),
     }
     // re-applying the op to a capturing hook reproduces it
     let mut cap = Capture::new();
